@@ -496,6 +496,7 @@ class Program:
         self.by_name = {}       # exact MIR name -> Body
         self.inherent = {}      # (TypeHead, method) -> [Body]
         self.traitimpl = {}     # (TypeHead, TraitHead, method) -> [Body]
+        self.impl_consts = {}   # (TypeHead, TraitHead | None, NAME) -> Body
         self.free = {}          # last segment -> [Body]
         self.closures = {}      # closure location -> Body
         self.models = {}        # skeleton -> python fn(it, key, raw, args)
@@ -523,6 +524,11 @@ class Program:
     def index_body(self, b):
         name = b.name
         if b.kind[0] in ('const', 'static', 'static mut', 'promoted'):
+            m = IMPL_RE.search(name) if b.kind[0] == 'const' else None
+            if m and name[m.end():].startswith('::') and '::' not in name[m.end() + 2:]:
+                # associated constant of an impl block: reachable as `<T as Trait>::NAME` / `T::NAME`
+                tr, ty, _ = self.src.impl_header(m.group(1), int(m.group(2)), int(m.group(3)), int(m.group(4)), int(m.group(5)))
+                self.impl_consts[(ty, tr, name[m.end() + 2:])] = b
             return
         m_clo = re.search(r'::\{closure#\d+\}$', name)
         if m_clo:
@@ -573,6 +579,14 @@ class Program:
                     c = self.traitimpl.get((tgt, 'From' if tr == 'Into' else 'TryFrom', 'from' if tr == 'Into' else 'try_from'))
                     if c:
                         c2 = [b for b in c if b.param_tys and type_head(b.param_tys[0]) == th]
+                        if len(c2) > 1:
+                            # same type name in two crates (e.g. ic_btc_types::Txid / ic_btc_interface::Txid): compare crate-qualified
+                            ms = re.match(r'^<(.+?) as ', raw)
+                            if ms:
+                                full = lambda b: b.param_tys[0] if '::' in b.param_tys[0] else '%s::%s' % (b.kind[1], b.param_tys[0])
+                                c3 = [b for b in c2 if full(b) == ms.group(1)]
+                                if c3:
+                                    c2 = c3
                         if len(c2) >= 1:
                             return self.pick(c2, raw)
             return None
@@ -934,6 +948,11 @@ class Interp:
             b = self.prog.by_name.get(cand)
             if b is not None and b.kind[0] in ('const', 'static'):
                 return self.run(b, [])
+        m = re.match(r'^<(.+) as (.+)>::(\w+)$', name)
+        if m:
+            b = self.prog.impl_consts.get((type_head(m.group(1)), type_head(m.group(2)), m.group(3)))
+            if b is not None:
+                return self.run(b, [])
         m = re.match(r'^(?:std::option::)?Option::<.*>::None$', name)
         if m:
             return none()
@@ -1259,6 +1278,8 @@ class Interp:
             ov = ovs.get(sk)
             if ov is not None:
                 return ov(self, key, raw, args)
+        if kind == 'ambiguous':
+            raise Unsupported(str(target))
         if kind == 'body':
             if key[0] == 'trait' and key[1].startswith('&'):
                 # impl of the trait for &T forwards to T's impl: strip one reference level per '&'
@@ -1283,7 +1304,10 @@ class Interp:
         sk = skeleton(key)
         if key[0] == 'trait' and key[3] == 'fmt':
             return (key, sk, 'fmt', None)
-        b = self.prog.resolve(key, raw)
+        try:
+            b = self.prog.resolve(key, raw)
+        except Unsupported as e:
+            return (key, sk, 'ambiguous', e)      # raised at call time unless an override takes the call
         if b is not None:
             return (key, sk, 'body', b)
         f = MODELS.get(sk)
